@@ -147,6 +147,13 @@ def build(repo):
 """, expect_sig="fn generate_strobe_statement(&mut self, expr: &Expr, pos: usize) -> Result<(), Error>")
     st.body_start("        let ghost c0 = self.out.code@;\n        proof { assert(added(c0, c0) =~= Seq::<AsmLine>::empty()); }")
     parts.append(st.text)
+    if "fn variable_or_error" in gs.text:
+        # the lookup helper of generate_statements.rs (a failed lookup is an error, not a panic); stub with the meaning of the R6 shim's get_variable
+        parts.append("""    #[verifier::external_body]
+    fn variable_or_error(&self, name: &str, pos: usize) -> (r: Result<&'a Variable, Error>)
+        ensures r is Ok ==> *r->Ok_0 == self.compiler_state.var(name@),
+    { unimplemented!() }
+""")
     # ---- asm statement
     am = gs.fn("generate_asm_statement", within="GeneratorState")
     cuts.append(am)
